@@ -25,12 +25,14 @@
   * text: the create stamp and the annotation names are byte strings (UTF-8 encode/decode is CPython's);
     the volume-info text lines are modelled for ASCII text only (`str.strip/split` whitespace on
     non-ASCII code points is not modelled); number ↔ text conversion of the volume-info values
-    (`f'{v:.10g}'`, `int()`, `float()`) is external: the model carries the value TOKENS;
+    (`f'{v:.10g}'`, `float()`) is external: the model carries the value TOKENS; the INTEGER tokens of the
+    `volume` line (`f'{val[0]}'`, `np.array(tokens, int)`) are modelled: `intRepr` / `intParse`;
   * old-format files (quad surfaces, old morph files, old colour tables) are never written by the
     library and are refused by the model with `Err.unmodelled`; `read_label` has no writer in the
     library (no `write_label`) and is out of scope.
 -/
 import NibabelModel.Generated.C19
+import NibabelModel.Model.C16
 namespace Nb.C19
 open Nb.Gen.C19
 
@@ -138,6 +140,32 @@ def words (l : Bytes) : List Bytes := wordsGo [] l
 def splitFirst (c : Nat) : Bytes → Bytes × Option Bytes
   | [] => ([], none)
   | b :: r => if b = c then ([], some r) else (b :: (splitFirst c r).1, (splitFirst c r).2)
+
+/-! ## integer tokens of the volume-info `volume` line (decimal digits: `Nb.C16.decRepr` / `parseDec`) -/
+
+/-- `str(v)` / `f'{v}'` of a Python or NumPy integer, as ASCII codes -/
+def intRepr (v : Int) : Bytes :=
+  if v < 0 then 45 :: Nb.C16.decRepr v.natAbs else Nb.C16.decRepr v.natAbs
+
+/-- `int(token)` on the tokens `str(int)` produces: an optional `-` and ASCII digits (CPython also accepts
+    `+`, `_` and surrounding blanks, which the writer never emits: refused as unmodelled) -/
+def intParse (t : Bytes) : Except Err Int :=
+  match t with
+  | 45 :: r => match Nb.C16.parseDec r with
+    | some n => .ok (-(n : Int))
+    | none => .error .unmodelled
+  | r => match Nb.C16.parseDec r with
+    | some n => .ok (n : Int)
+    | none => .error .unmodelled
+
+def intsParse : List Bytes → Except Err (List Int)
+  | [] => .ok []
+  | t :: ts =>
+    match intParse t with
+    | .error e => .error e
+    | .ok v => match intsParse ts with
+      | .ok vs => .ok (v :: vs)
+      | .error e => .error e
 
 /-! ## geometry (triangle surfaces) -/
 
